@@ -33,7 +33,7 @@ DUR_RE = re.compile(r"^-?\d+(\.\d{3}|\.\d{6}|\.\d{9})?s$")
 
 
 def plan(tier, seed):
-    n = 4000 if tier == "quick" else 130000
+    n = 4000 if tier == "quick" else 40000
     return [{"seed": seed * 313 + i, "n": n} for i in range(16)] + [{"kind": "w0"}]
 
 
